@@ -19,6 +19,7 @@ COMMON_TRUST = ('Trusted: Verus/Z3/rustc; the extractor/assembler (round-trip ch
 
 PLAN = {
     'C01': {
+        'bounded': ['phonetic_api', 'fixed_api', 'fixed_rules', 'user_files'], 'static': ['context_glue'], 'kani': ['k_keycode_to_char'],
         'level': 'proof', 'safety': True,
         'units': ['fixed_pkv_common', 'fixed_reph', 'fixed_session', 'layout', 'rank', 'util', 'phon', 'pmeth'],
         'technique': 'Verus built-in safety obligations (unwrap/index/slice/overflow/termination) on extracted real functions under data-structure invariants',
@@ -26,6 +27,7 @@ PLAN = {
         'note': COMMON_TRUST + 'Not decided: panics inside okkhor/regex/poriborton/emojicon, sort panic-freedom for non-total comparators, RefCell double borrow, time complexity beyond termination; T2 functions (split, internal_backspace_step, search_dictionary, include_from_dictionary, layout_get_value) only have assumed contracts here.',
     },
     'C02': {
+        'bounded': ['phonetic_api', 'fixed_api'],
         'level': 'proof',
         'units': ['rank', 'fixed_session', 'phon', 'pmeth'],
         'technique': 'Verus postcondition sg_ok (len>=1, selection<len, auxiliary==composition) on every event function; read-out preconditions',
@@ -33,6 +35,7 @@ PLAN = {
         'note': COMMON_TRUST + 'std list-length specs (sort, dedup, truncate) assumed.',
     },
     'C03': {
+        'bounded': ['split', 'phonetic_api'], 'kani': ['k_keycode_to_char'],
         'level': 'proof',
         'units': ['layout', 'util', 'phon', 'pmeth'],
         'technique': 'Verus: keycode_to_char == riti.h table; suggest_only_phonetic == avro(p)+avro(w)+avro(t) over split_spec; statement-level split lemmas',
@@ -40,6 +43,7 @@ PLAN = {
         'note': COMMON_TRUST + 'okkhor (avro) is an uninterpreted function; SplittedString::split itself is T2: assumed contract == split_spec, bounded conformance check.',
     },
     'C04': {
+        'bounded': ['layout_values'], 'kani': ['k_modifiers_plane'],
         'level': 'proof',
         'units': ['layout', 'fixed_pkv_off', 'fixed_session'],
         'technique': 'Verus: get_char_for_key for all u16 codes vs riti.h-generated table; plane chosen by the AltGr bit only; frame/append postconditions of get_suggestion',
@@ -47,6 +51,7 @@ PLAN = {
         'note': COMMON_TRUST + 'layout_get_value(_numpad) (format!/closure) are T2: assumed contract over the abstract layout map, finite call-site conformance check; the transcription of riti.h macro names into entry names is hand-written (tools/gen_keytable.py).',
     },
     'C05': {
+        'bounded': ['history_independence'], 'static': ['no_shared_state'],
         'level': 'proof',
         'units': ['phon', 'pmeth'],
         'technique': 'Verus: memo-transparency invariant ph_cache_ok + functional postcondition list == ph_list(text, config, data, memo)',
@@ -54,6 +59,7 @@ PLAN = {
         'note': COMMON_TRUST + 'The corollary "same list for every history" additionally needs the prefixes-memoised invariant (not yet proved: stated in DESIGN); include_from_dictionary, split are T2; sort assumed to be a function of ranks; "other contexts in the same process" rests on safe Rust aliasing + a scan for statics.',
     },
     'C06': {
+        'bounded': ['fixed_rules', 'fixed_api'], 'static': ['context_glue'],
         'level': 'proof',
         'units': ['fixed_session', 'fixed_pkv_common', 'pmeth', 'rank'],
         'technique': 'Verus postconditions: reset state after terminating events, truthful session flag, strictly decreasing measure, wf invariant (idle => no raw keys; scratch list overwritten before read)',
@@ -61,6 +67,7 @@ PLAN = {
         'note': COMMON_TRUST + 'Equality with a new context is at the level of the abstract state (buffer, raw keys, waiting sign; memo transparent by C05).',
     },
     'C07': {
+        'bounded': ['phonetic_api'],
         'level': 'proof',
         'units': ['rank', 'util', 'phon'],
         'technique': 'Verus: Rank::cmp == rank_cmp (class, number); assembly postcondition of suggest; push_checked duplicate-freedom at ranked-value level',
@@ -68,6 +75,7 @@ PLAN = {
         'note': COMMON_TRUST + 'Sortedness is conditional on std sort + the comparator being a total preorder on the elements present (emoji numbers 1..9 vs multiples of 10: data precondition); edit distance <= 25 (data precondition).',
     },
     'C08': {
+        'bounded': ['suffix_forms'],
         'level': 'proof',
         'units': ['phon', 'util'],
         'technique': 'Verus: full functional postcondition of add_suffix_to_suggestions (every split point x every memoised base x three joining rules) with loop invariants',
@@ -75,6 +83,7 @@ PLAN = {
         'note': COMMON_TRUST + 'include_from_dictionary (regex) is T2: assumed contract ph_dict; ASCII byte/char bridge axioms for &s[a..b].',
     },
     'C09': {
+        'bounded': ['learn_recall'],
         'level': 'proof',
         'units': ['pmeth', 'phon'],
         'technique': 'Verus: candidate_committed postcondition over the String-keyed map view (learned value = word part of the candidate; no-op when preselected)',
@@ -82,6 +91,7 @@ PLAN = {
         'note': COMMON_TRUST + 'The look-up side (get_prev_selection == position of the rebuilt text) is only proved safe and in range so far; serde round trip and disk atomicity are not decided.',
     },
     'C10': {
+        'bounded': ['user_files'],
         'level': 'proof',
         'units': ['pmeth', 'phon'],
         'technique': 'Verus with adversarial environment stubs: fs/serde/time functions may fail or return anything; unwrap preconditions must hold for every outcome',
@@ -89,6 +99,7 @@ PLAN = {
         'note': COMMON_TRUST + 'Assumed: metadata()/modified() of a just-opened file succeed; serde_json::to_string of a string map succeeds; read() of an open file does not fail.',
     },
     'C11': {
+        'bounded': ['update_engine'], 'static': ['no_option_fields', 'context_glue'],
         'level': 'proof',
         'units': ['pmeth', 'fixed_session'],
         'technique': 'Verus: update_engine re-establishes the memo invariant w.r.t. the reloaded list; methods hold no option state (all contracts are functions of the config argument)',
@@ -96,6 +107,7 @@ PLAN = {
         'note': COMMON_TRUST + 'Layout switch and storing the new config happen in src/context.rs (pinned glue); equality of the reloaded list with what a fresh context reads depends on the file system and is not decided (mtime granularity).',
     },
     'C12': {
+        'bounded': ['fixed_rules'],
         'level': 'proof',
         'units': ['fixed_pkv_off', 'fixed_session'],
         'technique': 'Verus contracts on the extracted real process_key_value vs a rule-chain spec function c12()',
@@ -103,6 +115,7 @@ PLAN = {
         'note': COMMON_TRUST + 'The transcription of the statement into c12() is hand-written.',
     },
     'C13': {
+        'bounded': ['reph', 'backspace_step'],
         'level': 'proof',
         'units': ['fixed_reph', 'fixed_pkv_off', 'fixed_pkv_common'],
         'technique': 'Verus loop invariant tying the real right-to-left scan to a recursive scan spec; conservation postcondition; dispatch clauses',
@@ -110,6 +123,7 @@ PLAN = {
         'note': COMMON_TRUST + 'internal_backspace_step (closure fold) is T2 with a bounded conformance check; the lemma scan position == statement position for well-formed text is checked by the bounded reph check (<= 5 code points, 10-symbol class alphabet) until the spec-level induction is added.',
     },
     'C14': {
+        'bounded': ['fixed_rules'],
         'level': 'proof',
         'units': ['fixed_pkv_on', 'fixed_session'],
         'technique': 'Verus: process_key_value with the option on == transition function step_on (pending-sign state machine); termination; session/backspace clauses',
@@ -117,6 +131,7 @@ PLAN = {
         'note': COMMON_TRUST + 'The word-level equivalence with Unicode-order typing is proved only for the single-consonant syllable lemma so far; known finding: ra + zo-fola under a left-standing sign.',
     },
     'C15': {
+        'bounded': ['fixed_api'],
         'level': 'proof',
         'units': ['fixed_session'],
         'technique': 'Verus: functional postcondition list == fx_list(text, raw keys, options, data) for create_dictionary_suggestion, with lemma 1 <= len <= 9',
@@ -124,6 +139,7 @@ PLAN = {
         'note': COMMON_TRUST + 'search_dictionary (regex) is T2: assumed contract fx_dict; ordering claims conditional on std sort_unstable + total preorder; dedup removes only adjacent duplicates (data precondition on table order).',
     },
     'C16': {
+        'bounded': ['ansi', 'fixed_api', 'phonetic_api'],
         'level': 'proof',
         'units': ['rank', 'fixed_session', 'phon', 'pmeth'],
         'technique': 'Verus: ANSI clauses of the list functions, get_pre_edit_text == bijoy(candidate) / candidate, option getter',
@@ -131,6 +147,7 @@ PLAN = {
         'note': COMMON_TRUST + 'Statements about poriborton output (no Bengali-block code point, totality on the dictionary) are not decided.',
     },
     'C17': {
+        'bounded': ['smart_quote'],
         'level': 'proof',
         'units': ['util', 'fixed_session', 'phon'],
         'technique': 'Verus: smart_quoter == pointwise curl maps with loop invariants; placement clause (applied once, after splitting, only with the option on) in both list functions',
@@ -138,6 +155,7 @@ PLAN = {
         'note': COMMON_TRUST + 'The relational corollary (uncurl(list on) == list off) is not yet a checked lemma.',
     },
     'C18': {
+        'bounded': ['emoji_tables', 'phonetic_api'],
         'level': 'other',
         'units': ['fixed_session', 'phon', 'rank'],
         'technique': 'Verus: emoticon/emoji clauses of the assembled list around an abstracted 5-line region (assumed contract)',
